@@ -5,6 +5,7 @@ import (
 	"go/ast"
 	"go/token"
 	"go/types"
+	"regexp"
 	"strings"
 )
 
@@ -300,6 +301,19 @@ func runFreshFile(c *Ctx) {
 									for _, w := range want {
 										if a == w {
 											got = true
+										}
+									}
+								}
+								// the same path up to single-definition locals
+								if o, ok := ObjOf(info, call.Args[1]).(*types.Var); ok && !o.IsField() {
+									if own := owningFunc(f, o); own != nil {
+										for _, d := range allDefs(own, o) {
+											if sv, isC := constString(own.Info(), d); isC && sv == "" {
+												continue
+											}
+											if samePathExpr(f, rc.Args[0], d) {
+												got = true
+											}
 										}
 									}
 								}
@@ -684,7 +698,48 @@ func samePathExpr(f *FuncInfo, a, b ast.Expr) bool {
 			}
 		}
 	}
+	// the same expression up to single-definition locals (`sid := sidecarIdentifier(item)`)
+	for i := 0; i <= 4; i++ {
+		for j := 0; j <= 4; j++ {
+			if inlineLocals(f, a, i) == inlineLocals(f, b, j) {
+				return true
+			}
+		}
+	}
 	return false
+}
+
+// inlineLocals prints e with every local variable that has exactly one definition replaced by that definition (recursively).
+func inlineLocals(f *FuncInfo, e ast.Expr, depth int) string {
+	s := types.ExprString(ast.Unparen(e))
+	if depth == 0 {
+		return s
+	}
+	info := f.Info()
+	seen := map[types.Object]bool{}
+	ast.Inspect(e, func(n ast.Node) bool {
+		id, ok := n.(*ast.Ident)
+		if !ok {
+			return true
+		}
+		o, _ := info.Uses[id].(*types.Var)
+		if o == nil || o.IsField() || seen[o] {
+			return true
+		}
+		seen[o] = true
+		own := owningFunc(f, o)
+		if own == nil {
+			return true
+		}
+		defs := allDefs(own, o)
+		if len(defs) != 1 {
+			return true
+		}
+		rep := inlineLocals(own, defs[0], depth-1)
+		s = regexp.MustCompile(`\b`+regexp.QuoteMeta(id.Name)+`\b`).ReplaceAllLiteralString(s, rep)
+		return true
+	})
+	return s
 }
 
 // removeAfterCreate: some removal of the stale sidecar can run after the data file was created.
